@@ -32,9 +32,16 @@ sleep 20
 done
 echo "demo-without-patch-exit=$A (want 0) demo-with-patch-exit=$B (want !=0) existing-tests-with-patch-exit=$C (want 0)"
 [ $C -ne 0 ] && tail -20 /tmp/seed-c.log
-# run the check against the change in /repo
+# run the check against the change: in /repo (default), or with SEED_NOREPO=1 against the scratch worktree with a
+# scratch evidence directory so that a background batch never touches /repo or /verif/evidence
+if [ "${SEED_NOREPO:-0}" = 1 ]; then
+  SV=/tmp/seedverif-$$; mkdir -p $SV/evidence $SV/bin; cp /verif/known_findings.json $SV/; cp /verif/bin/verifcheck $SV/bin/
+  ( cd $SV && ./bin/verifcheck -property $PROP -tier quick -repo $WT -verif $SV > /tmp/seed-check.log 2>&1 ); D=$?
+  rm -rf $SV
+else
 git -C /repo apply $SD/patch.diff || { echo "cannot apply to /repo"; exit 3; }
 ( cd /verif && ./check.sh $PROP quick > /tmp/seed-check.log 2>&1 ); D=$?
 git -C /repo checkout -- .
+fi
 grep -E "^  rule=|VIOLATION|KNOWN" /tmp/seed-check.log | grep -v KNOWN | head -8
 echo "RESULT valid=$([ $A -eq 0 ] && [ $B -ne 0 ] && [ $C -eq 0 ] && echo yes || echo no) detected=$([ $D -eq 1 ] && echo yes || echo no) check-exit=$D"
